@@ -189,6 +189,7 @@ fn log_script(t: &mut Tape) -> Vec<FReq> {
 }
 
 pub fn run(sim: &Sim, _cfg: &RunCfg) -> RunOut {
+    swarm_short_io(sim);
     match sim.with_w(|t| t.draw(3)) {
         0 => run_v::<VringRwLock<GM<()>>, ()>(sim),
         1 => run_v::<VringMutex<GM<()>>, ()>(sim),
